@@ -56,6 +56,7 @@ type c12Run struct {
 	injErr  error
 	injCall int
 	injFn   string
+	class   int // class of the injected error: 0, 3 opaque, 1 not-exist, 2 permission, 4 exist
 }
 
 func (r *c12Run) fn(_ avfs.VFSBase, fn avfs.FnVFS, fp *failfs.FailParam) error {
@@ -65,10 +66,13 @@ func (r *c12Run) fn(_ avfs.VFSBase, fn avfs.FnVFS, fp *failfs.FailParam) error {
 	if i == r.failAt || (r.failFn != "" && name == r.failFn) {
 		r.snapAt = fsx.Snap(r.base, "/", fsx.SnapOpts{Mtime: true}).String()
 		r.injCall, r.injFn = r.callIdx, name
+		// the class of the injected error varies with the plan: composites decide about retries and fall-backs with
+		// errors.Is(err, fs.ErrNotExist / fs.ErrPermission / fs.ErrExist)
+		inner := []error{errInjected, avfs.ErrNoSuchFileOrDir, avfs.ErrPermDenied, errInjected, avfs.ErrFileExists}[r.class%5]
 		if fp.NewPath != "" {
-			r.injErr = &fs.PathError{Op: fp.Op, Path: fp.Path + " " + fp.NewPath, Err: errInjected}
+			r.injErr = &fs.PathError{Op: fp.Op, Path: fp.Path + " " + fp.NewPath, Err: inner}
 		} else {
-			r.injErr = &fs.PathError{Op: fp.Op, Path: fp.Path, Err: errInjected}
+			r.injErr = &fs.PathError{Op: fp.Op, Path: fp.Path, Err: inner}
 		}
 		return r.injErr
 	}
@@ -225,7 +229,7 @@ func c12History(c *rt.Ctx, fsType string, h int) {
 	// ---- (b) every single-fault plan "fail the k-th consultation" ----
 	for k := range consults {
 		base, _ := c12Setup(fsType, sa, sb)
-		fr := &c12Run{base: base, failAt: k, injCall: -1}
+		fr := &c12Run{base: base, failAt: k, injCall: -1, class: k + h}
 		fr.ff = failfs.New(base)
 		_ = fr.ff.SetFailFunc(fr.fn)
 		fr.env = fsx.NewEnv(fr.ff)
@@ -246,8 +250,14 @@ func c12History(c *rt.Ctx, fsType string, h int) {
 			if fr.injFn == "FileClose" && (o.K == "OpenFile" || o.K == "Create" || o.K == "Open" || o.K == "CreateTemp") {
 				break // the Close of the handle previously held in the slot, done by the harness: not judged
 			}
-			plan := fmt.Sprintf("fail consultation #%d (%s)", k, fr.injFn)
-			sig := fmt.Sprintf("single-fault|%s|%s|inject=%s", fsType, o.K, fr.injFn)
+			cls := []string{"opaque", "not-exist", "permission", "opaque", "exist"}[fr.class%5]
+			plan := fmt.Sprintf("fail consultation #%d (%s) with a %s error", k, fr.injFn, cls)
+			sig := fmt.Sprintf("single-fault|%s|%s|inject=%s/%s", fsType, o.K, fr.injFn, cls)
+			if cls == "exist" && (o.K == "CreateTemp" || o.K == "MkdirTemp") && c12Fn(o) != fr.injFn {
+				// a name that is taken is what these two retry on: the single fault is absorbed by design
+				c.Rep.Case(sig+"|retried", true)
+				break
+			}
 			c.Rep.Case(sig+"|"+res.Err, true)
 			after := fsx.Snap(base, "/", fsx.SnapOpts{Mtime: true}).String()
 			if after != fr.snapAt {
@@ -278,7 +288,10 @@ func c12History(c *rt.Ctx, fsType string, h int) {
 	}
 	for fnName := range fns {
 		base, _ := c12Setup(fsType, sa, sb)
-		fr := &c12Run{base: base, failAt: -1, failFn: fnName, injCall: -1}
+		fr := &c12Run{base: base, failAt: -1, failFn: fnName, injCall: -1, class: len(fnName) + h}
+		if fr.class%5 == 4 {
+			fr.class = 1 // a persistent exist-class error is C07's business (the temp helpers give up after 10000 tries)
+		}
 		fr.ff = failfs.New(base)
 		_ = fr.ff.SetFailFunc(fr.fn)
 		fr.env = fsx.NewEnv(fr.ff)
